@@ -127,6 +127,12 @@ def run(ctx):
         dz = rng.choice([1.0, 0.5, 0.25, 0.125, 0.0625, 0.05, 0.1])
         x_max = None if rng.random() < 0.7 else int(pts[-1, 0]) + rng.randrange(0, 50)
         y_range = None if rng.random() < 0.7 else [1.0, 0.0]
+        if rng.random() < 0.2:
+            # very small miss ratios: the y separation is dy TIMES THE Y RANGE, never an absolute quantity
+            pts = pts.copy()
+            pts[:, 1] *= 2.0 ** -30
+            y_range = None if y_range is None else [2.0 ** -30, 0.0]
+            fam += '@ytiny30'
         one(ctx, pts, dx, dy, dz, x_max, y_range, fam)
 
 
